@@ -6,7 +6,9 @@
    (3) instances proved completely: AccessIter over any vector whose get agrees with a list and over the
        IntVector model, IntoIter, bit_vector::Iter;
    (4) bit_vector::OneIter<T>: all histories (incl. the inherited nth_back) and all entry points from the
-       one-step facts about oi_next_f / oi_nth / oi_next_back / oi_len (hypotheses, discharged at integration);
+       one-step facts about oi_next_f / oi_nth / oi_next_back / oi_len (hypotheses; Proofs/C10Glue.v.integrate
+       discharges them with Proofs/OneIterProof.v + SelectProof.v - it was checked against those files and yields the
+       unconditional C10_one_iter / C10_one_iter_entries, but those files are not part of this worktree);
    (5) _statement definitions for the iterator types whose models are not available yet. *)
 From Coq Require Import NArith List Bool.
 Require Import SDS.Model.Mach SDS.Model.Bits SDS.Model.Raw SDS.Model.IntVec SDS.Model.BitVec SDS.Model.Iters.
